@@ -62,7 +62,10 @@ def _expr(nf, L):
 
 
 def run_process(case):
-    """Replay one process history.  -> list of observations aligned with case['events']."""
+    """Replay one process history.  -> list of observations aligned with case['events'].
+    (cases travel as JSON text: the forking parent stays small, a fork per history stays cheap)"""
+    if isinstance(case, str):
+        case = json.loads(case)
     from tools.rect.satmanager import SATManager
     from tools.rect.pseudobool import Expr, Term, Ineq
     import tools.rect.pseudobool as pb
@@ -239,12 +242,14 @@ def features_of(e, case, idx):
             "event": e["ev"]}
 
 
-def decide(ctx: Ctx, cases: list[dict]):
+def decide(ctx: Ctx, cases: list[str]):
+    """cases: JSON texts of process histories."""
     prepare_imports()
     import tools.rect.satmanager  # noqa: F401  (imported in the parent, never used there: the store stays pristine)
     results = run_cases(run_process, cases, nproc=16, fresh=True)
     traces, owners = {}, {}
-    for c, (st, val) in zip(cases, results):
+    for cj, (st, val) in zip(cases, results):
+        c = json.loads(cj)
         if st != "ok":
             ctx.violation("no_result", {"case": c}, {"status": st}, {"kind": "no_result"})
             continue
@@ -259,7 +264,7 @@ def decide(ctx: Ctx, cases: list[dict]):
         if key not in traces:
             t["id"] = key
             traces[key] = t
-            owners[key] = {"case": c, "errs": [o.get("err") for o in val]}
+            owners[key] = {"case": cj, "errs": [o.get("err") for o in val]}
     verdicts = tlc.validate_traces(ctx, "SatTrace", "SatTrace", list(traces.values()), chunk=4000)
     for key, v in verdicts.items():
         t, own = traces[key], owners[key]
@@ -276,7 +281,7 @@ def decide(ctx: Ctx, cases: list[dict]):
             # a wrong encoding stays in the manager: only the first failing event of the process is reported
             first = min(l for (l, _c) in v["fails"])
             e = t["events"][first - 1]
-            case = own["case"]
+            case = json.loads(own["case"])
             for (l, clause) in v["fails"]:
                 if l != first:
                     continue
@@ -312,7 +317,7 @@ def run(ctx: Ctx) -> int:
     if ctx.replay:
         rec = json.load(open(ctx.replay))
         c = rec["case"]
-        decide(ctx, [{"vars": c["vars"], "detail": c.get("detail", 0), "events": c["events"], "src": "replay"}])
+        decide(ctx, [json.dumps({"vars": c["vars"], "detail": c.get("detail", 0), "events": c["events"], "src": "replay"})])
         return ctx.finish("model_checking", "replay of one recorded process history")
     tier = ctx.tier
     rng = random.Random(ctx.seed * 1000003 + 7)
@@ -322,18 +327,21 @@ def run(ctx: Ctx) -> int:
     cfgs = [("wide", allk), ("amo", ("amo",)), ("seq", ("amo", "pb"))]
     if tier == "thorough":
         cfgs = [("wide", allk), ("amo", ("amo",)), ("seq", allk), ("amo2", ("amo",)), ("seq3", ("pb",))]
-    cases, singles3 = [], []
+    cases, singles, wide_names = [], [], []
     for name, kinds in cfgs:
         hs = _mc(ctx, f"SatLayer_{tier}_{name}", kinds)
-        names = V7 if name.startswith("amo") else V7[:3]
+        names = V7 if name.startswith("amo") else V7[:2] if (name, tier) == ("wide", "quick") else V7[:3]
         for h in hs:
-            cases.append({"vars": names, "detail": 1, "events": with_solves(h["events"], names, rng), "src": name})
+            cases.append(json.dumps({"vars": names, "detail": 1, "events": with_solves(h["events"], names, rng), "src": name}))
         if name == "wide":
-            singles3 = [h["events"][-1]["c"] for h in hs]
+            singles, wide_names = [h["events"][-1]["c"] for h in hs], names
+        del hs
     n_tlc = len(cases)
-    hist = history_cases(singles3, V7[:3], rng, tier)
+    hist = history_cases(singles, wide_names, rng, tier)
+    if tier == "quick":
+        hist = rng.sample(hist, min(len(hist), 1500))
     rnd = random_cases(rng, 1500 if tier == "quick" else 30000)
-    ntr = decide(ctx, cases + hist + rnd)
+    ntr = decide(ctx, cases + [json.dumps(c) for c in hist + rnd])
     ctx.extra["cases_from_tlc"] = n_tlc
     ctx.extra["history_cases"] = len(hist)
     ctx.extra["random_cases"] = len(rnd)
